@@ -407,9 +407,15 @@ impl<const KK: usize> Probe<KK> {
                     log::log(K::Effect { msg, actor, step: i, what: name, arg: t as u64, ok });
                 }
                 Step::Publish(t, uid) => {
+                    #[cfg(not(feature = "rt_smol"))]
                     let ok = match t {
                         0 => ctx.publish(Topic::<0> { uid }).await.is_ok(),
                         _ => ctx.publish(Topic::<1> { uid }).await.is_ok(),
+                    };
+                    #[cfg(feature = "rt_smol")]
+                    let ok = {
+                        let _ = t;
+                        false
                     };
                     log::log(K::Effect { msg, actor, step: i, what: name, arg: uid, ok });
                 }
